@@ -94,13 +94,7 @@ func checkGIF(k *checker, spec containers.GIFSpec, info *containers.GIFInfo, r j
 			k.num(g.at("intro"), 0x21, "introducer", where)
 			k.num(g.at("fc"), uint64(b.Function), "function_code", where)
 			k.str(g.at("fc_sym"), gifFnSym[b.Function], "function_code", where)
-			var want []byte
-			if b.Function == 0xff {
-				// application extension: 11 byte identifier block, then data
-				want = b.ExtData
-			} else {
-				want = b.ExtData
-			}
+			want := b.ExtData // application extension: identifier block and data blocks concatenated
 			got := subBlocks(k, g.at("sub"), where)
 			k.check(bytes.Equal(got, want), "gif-bytes:extension data", "%s: extension data is %x, the writer stored %x", where, got, want)
 			continue
